@@ -1,5 +1,7 @@
 package font
 
+import "unicode/utf8"
+
 // Font represents a PDF font
 type Font struct {
 	Name     string
@@ -92,7 +94,11 @@ func (f *Font) DecodeString(data []byte) string {
 		return NormalizeUnicode(decoded)
 	}
 
-	// Priority 4: Fall back to raw bytes as string
+	// Priority 4: Fall back to raw bytes as string. Bytes that are not UTF-8
+	// are read with the default single-byte encoding, so the result is text
+	if !utf8.Valid(data) {
+		return NormalizeUnicode(GetEncoding("").DecodeString(data))
+	}
 	decoded = string(data)
 	return NormalizeUnicode(decoded)
 }
